@@ -307,6 +307,15 @@ def rule_MP6(rep, prog, g):
                     "swapped itself in as tail but not yet linked it ends the walk early, and the notifications behind it - already removed from the group - "
                     "are never submitted", sample={"load": l.loc, "waits": len(waits)})
     asyncs = calls_named(fn, "_dispatch_continuation_async")
+    # ... and it is read BEFORE the node is handed to its queue (from then on the node's do_next belongs to that queue's list)
+    for l in nxt:
+        node = root_ptr(fn, l.d["ptr"]["base"])
+        mine = [a for a in asyncs if root_ptr(fn, a.ops[1]) == node]
+        redef = [fn.insts[node[1]]] if node[0] == "i" else []      # the loop phi that gives `dc` its next value: crossing it starts the next iteration
+        rep.require(rid, bool(mine) and not any(fn.inst_reaches(a, l, avoid_insts=redef) for a in mine), l.loc, fn.name, "notify-successor-read-after-handoff",
+                    "_dispatch_group_wake reads a notification's successor after the notification was submitted to its queue: the target queue reuses do_next, so "
+                    "with two or more pending notifications the walk follows a foreign link - the remaining ones are never submitted (or the thread crashes)",
+                    sample={"load": l.loc})
     rels = calls_named(fn, ("_dispatch_release", "dispatch_release", "_os_object_release_internal"))
     for r in rels:
         q_ = root_ptr(fn, r.ops[0])
@@ -317,6 +326,15 @@ def rule_MP6(rep, prog, g):
         rep.require(rid, ok, r.loc, fn.name, "notify-queue-released-before-submit",
                     "_dispatch_group_wake drops the reference on a notification's queue before submitting the block to it: when that was the last reference "
                     "the block is pushed onto a freed queue and is lost (or the process crashes)", sample={"release": r.loc})
+
+
+def rule_CP7(rep, prog, g):
+    from .sync_common import rule_cas_progress
+    rid = rep.rule("C07-CP7", "progress of the group's state loops: every compare-exchange on dg_state / dg_bits that is retried in a loop retries with the value the "
+                   "failed attempt returned", floor=2)
+    n = rule_cas_progress(rep, rid, prog, fields=GF)
+    if n < 2:
+        rep.unknown(rid, "fewer than 2 retried compare-exchanges on the group state found (%d)" % n)
 
 
 def run(rep, tier="quick", srcdir=None, only=None):
@@ -337,6 +355,8 @@ def run(rep, tier="quick", srcdir=None, only=None):
         rule_OD5(rep, prog, g)
     if want("C07-MP6"):
         rule_MP6(rep, prog, g)
+    if want("C07-CP7"):
+        rule_CP7(rep, prog, g)
     if want("C07-FK"):
         from .sync_common import rule_futex_key
         rule_futex_key(rep, "C07", prog)
